@@ -281,6 +281,7 @@ def run(run, ix, tier):
     check_agm_iteration(run, ix)
     check_zero_tolerance(run, ix)
     check_float_estimates(run, ix)
+    check_divergent_bound_loops(run, ix)
     # ---- T-R5 / T-R6: iteration and precision caps --------------------------------
     run.rule('T-R5', floor=18, desc='loops that rely on a cap keep it inside the loop')
     run.rule('T-R6', floor=18, desc='the cap comparison is not made infeasible by a clamp')
@@ -977,3 +978,49 @@ def check_float_estimates(run, ix):
                              'NotImplementedError only)', line=bad.lineno))
     if n < 2:
         raise AnalysisError('T-R15: fewer than two Riemann-Siegel entry points reach a float estimate (%d)' % n)
+
+
+# --------------------------------------------------------------------------- T-R16
+def check_divergent_bound_loops(run, ix):
+    """T-R16 (fourth C24 hunt; repair a950b2b).  `while <bound(L)> >= eps: L = L + 1` ends only if the bound gets below
+    eps.  A bound with the Gamma function (or a factorial) of the COUNTER in it -- Gamma(L/2)/(ab)^L, the size of the
+    terms of an asymptotic series -- decreases to a minimum and then grows without limit: if the minimum is above eps
+    the loop never ends (mp.rs_z(10)).  Decided over every while loop of the package: when the condition calls
+    gamma / fac / factorial / rgamma on an expression that contains a name the body assigns, the body owns a guarded
+    raise, break or return."""
+    run.rule('T-R16', floor=3, desc='search loops over the bound of a divergent series own a second exit')
+    GROW = ('gamma', 'fac', 'factorial', 'rgamma', 'gammaprod', 'loggamma')
+    n = 0
+    for rel in sorted(ix.modules):
+        m = ix.module(rel)
+        for f in m.funcs.values():
+            for lp in _walk_own(f.node):
+                if not isinstance(lp, ast.While):
+                    continue
+                assigned = set()
+                for st in ast.walk(lp):
+                    if isinstance(st, (ast.Assign, ast.AugAssign)) and st is not lp:
+                        for t in (st.targets if isinstance(st, ast.Assign) else [st.target]):
+                            for y in ast.walk(t):
+                                if isinstance(y, ast.Name):
+                                    assigned.add(y.id)
+                hit = None
+                for c in ast.walk(lp.test):
+                    if isinstance(c, ast.Call) and norm(c.func).split('.')[-1] in GROW and c.args and \
+                            any(isinstance(y, ast.Name) and y.id in assigned for a in c.args for y in ast.walk(a)):
+                        hit = c
+                if hit is None:
+                    continue
+                n += 1
+                exits = [x for b in lp.body for x in ast.walk(b) if isinstance(x, (ast.Raise, ast.Break, ast.Return))]
+                if exits:
+                    run.ok('T-R16', '%s:%d the search over `%s` owns a second exit (line %d)'
+                           % (f.qualname, lp.lineno, norm(hit, 30), exits[0].lineno))
+                else:
+                    run.fail(Finding('T-R16', rel, f.qualname, 'while ' + norm(lp.test),
+                                     'the loop ends only when `%s` gets below its tolerance, but a bound with the Gamma '
+                                     'function of the counter in it grows again after its minimum: when that minimum is above '
+                                     'the tolerance the loop never ends (mp.rs_z(10), mp.rs_zeta(0.5+30j) at 53 bits)'
+                                     % norm(lp.test, 70), line=lp.lineno))
+    if n < 3:
+        raise AnalysisError('T-R16: only %d loops over a divergent bound found' % n)
